@@ -67,7 +67,7 @@ Definition tevs (tr : list xev) : list tev :=
   flat_map (fun x => match x with XT t => [t] | _ => [] end) tr.
 (* the elements handed to the consumer's function, in order *)
 Definition feeds (tr : list xev) : list Z :=
-  flat_map (fun x => match x with XT (TFeed _ v) => [v] | _ => [] end) tr.
+  flat_map (fun x => match x with XFeed _ v => [v] | _ => [] end) tr.
 (* the outcomes source id produced *)
 Definition src_hist (tr : list xev) (id : nat) : list outcome :=
   flat_map (fun x => match x with XT (TNextDone i _ o) => if Nat.eqb i id then [o] else [] | _ => [] end) tr.
